@@ -48,11 +48,40 @@ def _work(job):
             info = mod.run_group(args) or {}
     except (NeedsConcrete, Undecided, CutError) as e:
         solve.record('<group>', 'unknown', type(e).__name__, 0.0, None, 'engine', reason=str(e)[:500])
-    except Exception:
-        solve.record('<group>', 'error', 'traceback', 0.0, None, 'engine', reason=traceback.format_exc()[-3000:])
+    except Exception as e:
+        site = _explicit_raise_in_code_under_contract(e)
+        if site:
+            # the code under contract refused (explicit `raise`) an input of this group that the unchanged tree accepts -- every
+            # group runs to its end there, which the ledger enforces.  Reported as a refuted obligation, not as an engine problem;
+            # anything else (an exception out of numpy, the engine or an ordinary statement) stays an engine problem (exit 3).
+            solve.record('H:the-code-under-contract-refuses-an-input-of-this-group-that-it-accepted-before[%s]' % site, 'refuted',
+                         'exception-from-the-code-under-contract', 0.0, None, 'exec', note=traceback.format_exc()[-1500:])
+        else:
+            solve.record('<group>', 'error', 'traceback', 0.0, None, 'engine', reason=traceback.format_exc()[-3000:])
     obs = solve.take()
     solve.GROUP[0] = ''
     return gname, obs, info, time.time() - t0
+
+
+def _explicit_raise_in_code_under_contract(exc):
+    """'<file>:<function>: <ExceptionType>' when the innermost frame of the traceback is an explicit `raise` statement in a source
+    file of the repository under test, else None"""
+    import linecache
+    tb = exc.__traceback__
+    last = None
+    while tb is not None:
+        last = tb
+        tb = tb.tb_next
+    if last is None:
+        return None
+    code = last.tb_frame.f_code
+    fn = os.path.realpath(code.co_filename)
+    if not fn.startswith(os.path.realpath(os.path.join(REPO, 'src')) + os.sep):
+        return None
+    line = linecache.getline(code.co_filename, last.tb_lineno).strip()
+    if not line.startswith('raise '):
+        return None
+    return '%s:%s:%s' % (os.path.basename(fn), code.co_name, type(exc).__name__)
 
 
 def _spill_path(pid):
